@@ -248,11 +248,11 @@ func init() {
 			L = 4
 		}
 		// all histories of <= L calls; of the longest ones that use the entry points added last, the quick
-		// tier takes a seeded half
+		// tier takes a seeded third
 		var rec func(prefix []entryOp, newer bool)
 		rec = func(prefix []entryOp, newer bool) {
 			if len(prefix) > 0 {
-				if c.mine(idx) && (!newer || len(prefix) < L || c.thorough() || hashSel(c.seed, idx, 1, 2)) {
+				if c.mine(idx) && (!newer || len(prefix) < L || c.thorough() || hashSel(c.seed, idx, 1, 3)) {
 					w.write(runEntryCase(fmt.Sprintf("e%d", idx), prefix))
 				}
 				idx++
